@@ -281,6 +281,10 @@ func (la *LockAn) runDefers(fn *ssa.Function, s lockState, rd *ssa.RunDefers, lo
 	for k := len(defers) - 1; k >= 0; k-- {
 		d := defers[k]
 		cc := &d.Call
+		// a defer that cannot have been registered on any path to this exit does not run here
+		if !instrReaches(d, rd) {
+			continue
+		}
 		if fld, acq, _, ok := lockOp(cc); ok {
 			if fld == nil {
 				continue
@@ -476,4 +480,28 @@ func classify(fn *ssa.Function, v ssa.Value, fld *types.Var, isAddr bool, out *[
 			}
 		}
 	}
+}
+
+// instrReaches: b can execute after a (plain CFG reachability, no pruning).
+func instrReaches(a, b ssa.Instruction) bool {
+	if a.Block() == b.Block() && pointOf(a).i < pointOf(b).i {
+		return true
+	}
+	seen := map[*ssa.BasicBlock]bool{}
+	var visit func(x *ssa.BasicBlock) bool
+	visit = func(x *ssa.BasicBlock) bool {
+		for _, s := range x.Succs {
+			if s == b.Block() {
+				return true
+			}
+			if !seen[s] {
+				seen[s] = true
+				if visit(s) {
+					return true
+				}
+			}
+		}
+		return false
+	}
+	return visit(a.Block())
 }
